@@ -24,6 +24,9 @@ structure Ins where
 
 inductive Line where
   | ins (i : Ins)                -- `  op a, b`
+  | insA (i : Ins) (note : String)
+      -- an instruction printed exactly like `.ins i`, carrying a fact the text does not show
+      -- (used for `call`: note "ret:f80" = the callee returns a long double in %st(0))
   | multi (is : List Ins)        -- `  i1; i2; i3`      (cast_table strings)
   | multiT (text : String) (is : List Ins)
       -- a cast_table string whose spelling is not the canonical `op a, b; op c` (no space after a
@@ -47,6 +50,7 @@ def Ins.render (i : Ins) : String :=
 
 def Line.render : Line → String
   | .ins i => "  " ++ i.render
+  | .insA i _ => "  " ++ i.render
   | .multi is => "  " ++ "; ".intercalate (is.map Ins.render)
   | .multiT t _ => "  " ++ t
   | .label n => n ++ ":"
@@ -55,6 +59,7 @@ def Line.render : Line → String
 /-- all instructions of a line, in order -/
 def Line.instrs : Line → List Ins
   | .ins i => [i]
+  | .insA i _ => [i]
   | .multi is => is
   | .multiT _ is => is
   | _ => []
